@@ -116,12 +116,16 @@ Definition cut_ok (n : nat) (css : list (list col)) (ls : list link) (k : nat) (
   | None => false
   end.
 
-Definition nary_ok (css : list (list col)) (sides : nat -> list nat) (ts : list table) (ls : list link) : bool :=
-  Nat.eqb (List.length css) (List.length ts) &&
-  forallb (fun ct => uniformb (fst ct) (snd ct)) (combine css ts) &&
+(* every table is uniform with the given schema *)
+Definition tables_uniform (css : list (list col)) (ts : list table) : bool :=
+  Nat.eqb (List.length css) (List.length ts) && forallb (fun ct => uniformb (fst ct) (snd ct)) (combine css ts).
+(* the links form a tree over the tables (certified by the cuts `sides`) and satisfy the overlap discipline *)
+Definition tree_ok (css : list (list col)) (sides : nat -> list nat) (ts : list table) (ls : list link) : bool :=
   Nat.eqb (List.length ls + 1) (List.length ts) &&
   forallb (link_ok (List.length ts) css) ls &&
   forallb (fun k => cut_ok (List.length ts) css ls k (sides k)) (seq 0 (List.length ls)).
+Definition nary_ok (css : list (list col)) (sides : nat -> list nat) (ts : list table) (ls : list link) : bool :=
+  tables_uniform css ts && tree_ok css sides ts ls.
 
 (* the tables reachable from the first table of link k without using link k *)
 Definition dummyJ : joinfn := fun _ _ _ _ _ => [].
